@@ -12,6 +12,7 @@ RULE_TRACE = ("direction B: seeded drivers run histories on the real code (all 1
 
 
 def c01(run):
+    wire_design(run, [])
     run.trace("roundtrip-canon", Q(run, 4, 60))
     run.trace("stream", Q(run, 1, 10), seed_off=100)
     run.assumptions += ["canonical domain decided by Canonical(T, v) in Codec.tla", "self-computed fields compared with the object the encoder left behind (their correctness is C04/C05)"]
@@ -26,33 +27,52 @@ def c02(run):
     return run.finish(RULE_TRACE)
 
 
+def wire_design(run, devs):
+    """the WireMachine design model (exhaustive over histories), its sensitivity configurations, and direction A"""
+    run.wire_model(Q(run, "MCWire_d3.cfg", "MCWire_d5.cfg"), note="every history of <= %s public operations over the frame universe: FramesRight, ObjectReports, HeadDecodes, ChannelShape, AppendOnly" % Q(run, 3, 5))
+    for cfg, inv in devs:
+        run.wire_model(cfg, expect=inv)
+    run.behaviour_replay(Q(run, "MCWire_export3.cfg", "MCWire_export4.cfg"), sample=Q(run, None, 60000))
+
+
+RULE_WIRE = ("design model: WireMachine.tla, exhaustive over every history of <= 3 (quick) / 5 (thorough) public operations {Encode of each of 10 sample "
+             "messages (every frame type with and without body, a plain message), SetStale, Decode, Next(1|5|one frame), Reset, WriteRaw}; the named "
+             "deviations must violate FramesRight. A: every exported behaviour (depth 3; thorough: a 60,000 sample of depth 4) is executed on the real "
+             "types and the result, unread bytes and object are compared with the model after every step. ")
+
+
 def c04(run):
+    wire_design(run, [("MCWire_dev_abspatch.cfg", "FramesRight"), ("MCWire_dev_lentrailer.cfg", "FramesRight")])
     frames = ["sse.SseBinary", "szse.SzseBinary", "risk.RcBinary", "sample.RootPacket"]
     run.trace("history", Q(run, 60, 600), types=frames)
     run.trace("encode-any", Q(run, 30, 300), types=frames, seed_off=100)
     run.trace("tables", Q(run, 1, 3), types=frames, seed_off=200)
-    return run.finish(RULE_TRACE + "Frames only (the four length-computing frame types x all their registered bodies).")
+    return run.finish(RULE_WIRE + RULE_TRACE + "Frames only (the four length-computing frame types x all their registered bodies).")
 
 
 def c05(run):
+    wire_design(run, [("MCWire_dev_overunread.cfg", "FramesRight"), ("MCWire_dev_csumbeforepatch.cfg", "FramesRight")])
     frames = ["sse.SseBinary", "szse.SzseBinary", "sample.RootPacket"]
     run.trace("history", Q(run, 80, 800), types=frames, small=True)
     run.trace("history", Q(run, 4, 40), types=frames, seed_off=50)
     run.trace("encode-any", Q(run, 30, 300), types=frames, seed_off=100, small=True)
     run.trace("tables", Q(run, 1, 3), types=frames, seed_off=200, small=True)
+    run.trace("big-frames", Q(run, 3, 12), types=frames, seed_off=300, chunk=30)
     run.assumptions += ["the four checksum services are registered (library start-up state)"]
-    return run.finish(RULE_TRACE + "Frames only (the three checksummed frame types x all their registered bodies).")
+    return run.finish(RULE_WIRE + RULE_TRACE + "Frames only (the three checksummed frame types x all their registered bodies).")
 
 
 def c06(run):
+    wire_design(run, [("MCWire_dev_overunread.cfg", "FramesRight"), ("MCWire_dev_abspatch.cfg", "FramesRight")])
     run.trace("history", Q(run, 3, 40))
     run.trace("history", Q(run, 40, 400), types=["sse.SseBinary", "szse.SzseBinary", "risk.RcBinary", "sample.RootPacket", "bse.BjseBinary"], seed_off=100, small=True)
     return run.finish(RULE_TRACE)
 
 
 def c07(run):
+    wire_design(run, [])
     run.trace("stream", Q(run, 3, 40))
-    return run.finish(RULE_TRACE)
+    return run.finish(RULE_WIRE + RULE_TRACE)
 
 
 def c08(run):
@@ -140,6 +160,7 @@ def c03(run):
 
 def c13(run):
     run.trace("prim-fixed", Q(run, 2, 30))
+    run.trace("prim-fixed-sweep", 1, seed_off=100)
     return run.finish(RULE_PRIM + "Widths 0..5,10,16,200; pads 00,20,30,80,E9,FF and a random one; both sides; texts of length 0..N+2 over {pad,00,20,41,C3,A9,FF,30} and random bytes.")
 
 
